@@ -78,8 +78,45 @@ def check(ck):
         for c in node_calls(w):
             if dump(c.func).endswith(".wait"):
                 t = prov.origin(g, w, c.args[0]) if c.args else None
+                def _deadline_arith(t_):
+                    # what is left of the caller's timeout on the monotonic clock: (monotonic() + timeout) - monotonic(), also clipped with max(0, .)
+                    if t_ == ("param", "timeout"):
+                        return True
+                    ok_ = [True]
+
+                    def _scan(x):
+                        if not isinstance(x, tuple) or not x:
+                            return
+                        if x[0] == "call":
+                            nm_ = prov.show(x[1])
+                            if not (nm_.endswith("monotonic") or nm_.endswith("monotonic()") or nm_ in ("max", "min", "Global(max)", "Global(min)") or
+                                    "monotonic" in nm_ or nm_.split(".")[-1] in ("max", "min")):
+                                ok_[0] = False
+                        if x[0] == "binop" and x[1] not in ("Add", "Sub"):
+                            ok_[0] = False
+                        for y in x[1:]:
+                            if isinstance(y, tuple):
+                                if y and isinstance(y[0], str):
+                                    _scan(y)
+                                else:
+                                    for z in y:
+                                        _scan(z)
+                            elif isinstance(y, frozenset):
+                                for z in y:
+                                    _scan(z)
+                    _scan(t_)
+                    return ok_[0] and prov.contains(t_, lambda x: x == ("param", "timeout")) and \
+                        prov.contains(t_, lambda x: x[0] == "call" and "monotonic" in prov.show(x[1]))
+                if t is not None and t != ("param", "timeout") and _deadline_arith(t):
+                    ck.ok("C11.2", "%s: wait(timeout)" % q.fn(fj), "waits what is left of the caller's timeout (monotonic deadline)", q.loc(fj, w))
+                    continue
                 ck.require(t == ("param", "timeout"), "C11.2", "%s: wait(timeout)" % q.fn(fj), "waits the caller's timeout",
                            "the timed join waits %s" % (prov.show(t) if t else "without timeout"), q.loc(fj, w))
+        if any(isinstance(lp_, ast.While) and any(x_ is c_ for c_ in node_calls(w) for x_ in ast.walk(lp_)) and "unfinished_tasks" in dump(lp_.test)
+               for lp_ in ast.walk(fj.node)):
+            # a deadline loop `while unfinished_tasks: wait(remaining)`: what it returns depends on how the loop is left, which the folded
+            # predicate below does not describe
+            raise AnalysisError("ThreadPool.join waits in a loop over the unfinished count (deadline loop): not modelled")
         rets = [n for n in g.live_nodes() if n.kind == "return" and w.id in d[n.id]]
         okr = False
         if len(rets) == 1 and rets[0].ast.value is not None:
